@@ -76,6 +76,7 @@ def cases(tier):
     yield {"kind": "mutual"}
     yield {"kind": "near"}
     yield {"kind": "chain"}
+    yield {"kind": "undefined"}
     for eps in (None, "0.125", "0.0009765625"):
         yield {"kind": "boundary", "eps": eps}
     # the tolerance is EPSILON's business alone: the print precision must not move it
@@ -371,7 +372,16 @@ def check_near(r, case):
 CHAIN = [("(and (increase (f) 1.5))", {"f": "(+ (f) 1.5)"}), ("(and (decrease (f) (g ?x)))", {"f": "(- (f) (g ?x))"}),
          ("(and (assign (f) (* (f) (g ?x))))", {"f": "(* (f) (g ?x))"}),
          ("(and (increase (g ?x) (f)) (decrease (out) 1))", {"g ?x": "(+ (g ?x) (f))", "out": "(- (out) 1)"}),
-         ("(and (assign (g ?y) (g ?x)) (increase (g ?x) 0.5))", {"g ?y": "(g ?x)", "g ?x": "(+ (g ?x) 0.5)"})]
+         ("(and (assign (g ?y) (g ?x)) (increase (g ?x) 0.5))", {"g ?y": "(g ?x)", "g ?x": "(+ (g ?x) 0.5)"}),
+         # operator nodes whose direct operands are numerals / operator nodes only, with a fluent further down
+         ("(and (increase (f) 1) (increase (out) (* 2 (+ (f) 1))))", {"f": "(+ (f) 1)", "out": "(+ (out) (* 2 (+ (f) 1)))"}),
+         ("(and (decrease (g ?x) 0.5) (assign (out) (/ (- (g ?x) 1) (+ (f) (/ 1 2)))))",
+          {"g ?x": "(- (g ?x) 0.5)", "out": "(/ (- (g ?x) 1) (+ (f) (/ 1 2)))"}),
+         ("(and (assign (f) (- 0 (* 2 (- 1 (f)))))  )", {"f": "(- 0 (* 2 (- 1 (f))))"})]
+UNDEF_PROGRAMS = [  # (precondition, effect): the fluent (out) is read / written but the state does not define it
+    ("(and (>= (out) 5))", "(and (increase (f) 1))"), ("(and)", "(and (increase (out) 1))"),
+    ("(and (< (+ (out) (f)) 3))", "(and (assign (f) (+ (out) 2)))"), ("(and)", "(and (decrease (out) (f)) (increase (f) 1))"),
+]
 
 
 def check_chain(r, case):
@@ -414,7 +424,7 @@ def check_chain(r, case):
                 then, later, first = got
                 for i, e in enumerate(exps):
                     for label, seen in (("when produced", then[i]), ("after the later applications", later[i])):
-                        if seen.fluents != e.fluents:
+                        if set(seen.fluents) != set(e.fluents) or not all(close(v, e.fluents[k]) for k, v in seen.fluents.items()):
                             r.fail("chain", f"{eff} applied 3 times ({how}) from "
                                    f"{ {' '.join(k): str(v) for k, v in pre.fluents.items()} }: successor {i + 1} read {label} "
                                    f"= {seen.to_json()['fluents']}, expected { {' '.join(k): str(v) for k, v in e.fluents.items()} }",
@@ -426,8 +436,51 @@ def check_chain(r, case):
                     return
 
 
+def check_undefined(r, case):
+    """a fluent the state does not define: whatever the library makes of it (the reference leaves it undefined), it
+    makes the same of it every time - one operator asked again, after other states, answers like a fresh operator"""
+    r.nontrivial = True
+    from pddl_plus_parser.multi_agent.common import create_initial_state
+    for pre, eff in UNDEF_PROGRAMS:
+        D = _dom(f":precondition {pre} :effect {eff}")
+        texts = []
+        for out, f in ((None, "1"), ("10", "1"), (None, "1"), ("-4", "2"), (None, "1"), (None, "2")):
+            init = f"(= (f) {f}) (= (g o1) 0) (= (g o2) 0)" + (f" (= (out) {out})" if out is not None else "")
+            texts.append(f"(define (problem p) (:domain c12) (:objects o1 o2 - t1) (:init {init}) (:goal (and)))")
+
+        def run(shared):
+            outs = []
+            P0 = parse_problem(texts[0], D)
+            op = operator(D, "a", ["o1", "o2"], P0.objects)
+            for t in texts:
+                P = parse_problem(t, D)
+                if not shared:
+                    op = operator(D, "a", ["o1", "o2"], P.objects)
+                s0 = create_initial_state(P)
+                a = guard(op.is_applicable, s0)
+                s1 = guard(lambda: observe_state(op.apply(s0, allow_inapplicable_actions=True)).to_json())
+                outs.append([a if not isinstance(a, Raised) else a.type, s1 if not isinstance(s1, Raised) else s1.type])
+            return outs
+        fresh, reused = guard(run, False), guard(run, True)
+        r.count("transitions", 2 * len(texts))
+        r.count("states", len(texts))
+        if isinstance(fresh, Raised) or isinstance(reused, Raised) or fresh != reused:
+            r.fail("undefined-fluent-history", f"{pre} / {eff} over states that define (out) or not, in turn: one operator "
+                   f"re-used answers {reused}, a fresh operator per state answers {fresh}", str(fresh), str(reused),
+                   tags=["undefined", "chain"])
+            return
+        # the same state asked twice gives the same answer (states 0, 2 and 4 are the same state)
+        if not isinstance(fresh, Raised) and not (fresh[0] == fresh[2] == fresh[4]):
+            r.fail("undefined-fluent-history", f"{pre} / {eff}: the same state gives {fresh[0]}, {fresh[2]}, {fresh[4]}",
+                   str(fresh[0]), str(fresh[2]), tags=["undefined"])
+            return
+
+
 def check_case(case):
     r = CaseResult()
+    if case["kind"] == "undefined":
+        check_undefined(r, case)
+        return r
     {"eval": check_eval, "boundary": check_boundary, "print": check_print, "mutual": check_mutual,
      "near": check_near, "chain": check_chain}[case["kind"]](r, case)
     return r
